@@ -268,6 +268,9 @@ def handle (st : St) (args : List String) : St × String :=
       | "style", [i, _c, _r, _t] => match i.toNat? with
         | some i => replyOf st (step codec b (.edit i .style))
         | none => (st, "bad-op")
+      | "annot", [i, _kind, _k] => match i.toNat? with
+        | some i => replyOf st (step codec b (.edit i .style))
+        | none => (st, "bad-op")
       | "newsheet", [n] => match decodeStr n with
         | some n => replyOf st (step codec b (.newSheet n))
         | none => (st, "bad-op")
